@@ -55,6 +55,9 @@ TABLE = {
         ("view-rows-escapes", DF, "        return stat.unselect(\"_index_\", \"_group_\")", "        return slices[0] if slices else stat.unselect(\"_index_\", \"_group_\")", V, "STO-3"),
         ("pop-keeps-attribute", DF, "        value = super().pop(key, *args, **kwargs)\n        if hasattr(self, key):\n            if not self.__is_builtin_attr(key):\n                super().__delattr__(key)\n        return value",
          "        value = super().pop(key, *args, **kwargs)\n        return value", V, "STO-5"),
+        ("from_json-plain-dict", DF, "        return cls(**data)\n\n    @classmethod\n    @deco.new_from_generator\n    def from_pandas", "        return data\n\n    @classmethod\n    @deco.new_from_generator\n    def from_pandas", V, "STO-4"),
+        ("reconcile-zero-rows-unchecked", DF, "        nrow = self.nrow if self else None", "        nrow = self.nrow or None", V, "STO-2"),
+        ("nrow-unchecked-length", DF, "        return self.length\n\nclass DataFrame(dict):", "        return len(self)\n\nclass DataFrame(dict):", V, "MPT-2"),
         ("rename-local-silent", DF, "        nrow = max(map(util.length, self.values()), default=0)\n        for key, value in self.items():\n            if (isinstance(value, DataFrameColumn) and\n                value.nrow == nrow): continue\n            column = DataFrameColumn(value, nrow=nrow)\n            super().__setitem__(key, column)",
          "        nrow = max(map(util.length, self.values()), default=0)\n        for key, value in self.items():\n            if (isinstance(value, DataFrameColumn) and\n                value.nrow == nrow): continue\n            converted = DataFrameColumn(value, nrow=nrow)\n            super().__setitem__(key, converted)", S, None),
     ],
@@ -67,6 +70,10 @@ TABLE = {
         ("anti_join-take", DF, "            yield colname, np.delete(column, found)", "            yield colname, np.take(column, found)", V, "IDX-1"),
         ("mask-length-unchecked", DF, "        if len(rows) != self.nrow:\n            raise ValueError(\"Bad length for boolean rows\")", "        pass", V, "LEN"),
         ("unique-no-mask-component", DF, "                columns.append(na)", "                pass", V, "GRD-sentinel"),
+        ("head-one-too-many", DF, "        return self.slice(np.arange(n))", "        return self.slice(np.arange(n + 1))", V, "SIB-3"),
+        ("tail-wrong-start", DF, "        return self.slice(np.arange(self.nrow - n, self.nrow))", "        return self.slice(np.arange(self.nrow - n - 1, self.nrow))", V, "SIB-3"),
+        ("integer-rows-deduplicated", DF, "    def _parse_rows_from_integer(self, rows):\n        return Vector.fast(rows, int)", "    def _parse_rows_from_integer(self, rows):\n        return Vector.fast(np.unique(rows), int)", V, "LEN"),
+        ("seen-hash", DF, "            if rows[i] not in seen:\n                seen.add(rows[i])", "            if hash(rows[i]) not in seen:\n                seen.add(hash(rows[i]))", V, "SIB-seen"),
         ("filter-index-instead-of-take-silent", DF, "            yield colname, np.take(column, rows)", "            yield colname, column[rows].copy()", S, None),
     ],
     "C03": [
@@ -176,6 +183,9 @@ TABLE = {
         ("alias-other-target", IO, "    return DataFrame.read_npz(path, allow_pickle=allow_pickle)", "    return DataFrame.read_npz(path, allow_pickle=True)", V, "FWD-alias"),
     ],
     "C15": [
+        ("add-other-first", LO, "        yield from itertools.chain(self, other)\n\n    def __copy__", "        yield from itertools.chain(other, self)\n\n    def __copy__", V, "SEQ"),
+        ("mul-one-less", LO, "        for i in range(other):\n            yield from self", "        for i in range(other - 1):\n            yield from self", V, "SEQ"),
+        ("fill-overwrites-none", LO, "                if key not in item:\n                    item[key] = value", "                if item.get(key) is None:\n                    item[key] = value", V, "KEY-guard"),
         ("append-no-coercion", LO, "        if not isinstance(item, AttributeDict):\n            item = AttributeDict(item)\n        yield from itertools.chain(self, [item])", "        yield from itertools.chain(self, [item])", V, "EFF-asis"),
         ("sort-keys-in-given-order", LO, "        for key, dir in list(key_dir_pairs.items())[::-1]:", "        for key, dir in list(key_dir_pairs.items()):", V, "ORD-sort"),
         ("filter_out-equal", LO, "                if extract(item) != values:", "                if extract(item) == values:", V, "SIB-12"),
@@ -222,6 +232,9 @@ TABLE = {
         ("to_strings-no-empty-guard", VE, "        if self.length == 0:\n            return self.__class__.fast([], str)\n        identity", "        identity", V, "GRD-empty"),
         ("render-mutates", VE, "        if self.is_string():\n            strings = [quote(x) for x in self]", "        if self.is_string():\n            self[self.is_na()] = \"NA\"\n            strings = [quote(x) for x in self]", V, "EFF-render"),
         ("cells-unpadded", DF, "        columns = {colname: util.upad(\n            [colname] +", "        columns = {colname: list(\n            [colname] +", V, "SIB-pad"),
+        ("no-footer", DF, "        if max_rows < self.nrow:\n            rows_to_print.append(f\"... {self.nrow} rows total\")\n", "", V, "SIB-pad"),
+        ("rows-budget-off-by-one", DF, "        n = min(self.nrow, max_rows)\n        columns = {colname: util.upad(", "        n = min(self.nrow, max_rows - 1)\n        columns = {colname: util.upad(", V, "SIB-pad"),
+        ("geojson-cuts-rows-first", GE, "            self = self.modify(geometry=Vector.fast(geometry, object))", "            self = self.modify(geometry=Vector.fast(geometry, object)).head(max_rows or 100)", V, "FWD-override"),
         ("separator-len", DF, "            column.insert(2, \"─\" * util.ulen(column[0]))", "            column.insert(2, \"─\" * len(column[0]))", V, "SIB-pad"),
     ],
 }
